@@ -72,3 +72,11 @@ spec fn bw_delta_lm(st: Seq<State>, s: int, c: u8) -> int
         None => if s == 0 || st[s].fail == 1 { 0 } else { bw_delta_lm(st, st[s].fail as int, c) },
     }
 }
+
+proof fn lemma_root_live(st: Seq<State>, lm: bool)
+    requires bw_wf(st, lm),
+    ensures bw_live(st, lm, 0), st.len() > 1,
+{
+    let w = bw_wit(st, lm);
+    assert(da_ranked(st, lm, w));
+}
